@@ -423,6 +423,28 @@ func runC11(e *Env) error {
 		if len(c.Versions) >= 3 && len(c.Revs) >= 1 && nck >= 1 {
 			e.Res.Sample(map[string]any{"case": c, "impl": impl}, 6)
 		}
+		// Executor.ExecuteTo(v) for every version of the directory and an unknown one (histories without a partially
+		// applied revision: the fake partial hash of these cases cannot be resumed) vs the Lean model `executeTo`
+		if !c.Partial {
+			for _, v := range append(append([]string{}, c.Versions...), "zz9") {
+				got := runExecuteToImpl(&c, v)
+				if strings.HasPrefix(got, "harness:") {
+					continue
+				}
+				treq := map[string]any{"op": "pending.to", "files": mf, "revs": req["revs"], "cfg": c.Cfg, "v": v}
+				traw, terr := pool.Ask(treq)
+				if terr != nil {
+					continue
+				}
+				want := modelExecuteTo(traw)
+				e.Res.Tag("execute-to:" + strings.SplitN(got, ":", 2)[0])
+				if got != want {
+					e.Res.Disagree()
+					e.Res.Violate("no-failing-input-found", "corr-execute-to-mismatch", fmt.Sprintf("ExecuteTo(%q): implementation %s vs model %s on %s", v, got, want, hxJSON(c)), "correspondence Atlas.Pending.executeTo", map[string]any{"case": c, "v": v})
+					break
+				}
+			}
+		}
 		okI, sig, what := c11Monitor(&c, impl)
 		same := hxJSON(impl) == hxJSON(model)
 		if !same {
